@@ -18,6 +18,7 @@ LEVEL_TEXT = ('Proof: for every layout (any number of blank/whitespace lines, at
               'residues, blanks and digits, optional final "*"), parsing the rendered file yields exactly the concatenated residues; '
               'a second header, a repeated or non-final "*", or any other character in a sequence line is rejected. '
               'Tie: parser statement fingerprints + digit string; real files parsed by SequenceFileParser compared in Coq.')
+LEVEL_NOTE_MINIPY = ' Whole-function semantic ties (source translated to Core/MiniPy terms on every run, proved equal to the model for all inputs): __validSeq, __final_validation, parseSeqFile (every file text).'
 LEVEL_NOTE = 'Closed under the global context. Layout theorem covers \\n-terminated files with blank-padded sequence lines; \\r\\n/\\r and tab padding are covered by correspondence.'
 TECHNIQUE = 'Coq proof (list-of-ascii parsing lemmas, induction over lines) + in-Coq correspondence through real files'
 
